@@ -382,3 +382,63 @@ func init() {
 		Outside: []string{"LIMIT on ZREVRANGEBYSCORE", "values and indices beyond the bounds"},
 	})
 }
+
+func init() {
+	register(&Prop{
+		ID: "C09",
+		Jobs: func(rc *RunCtx) []JobSpec {
+			js := []JobSpec{
+				{Set: "auth", Fn: "HarnessC09CertRule", Params: p()},
+				{Set: "redis", Fn: "HarnessC09Gate", Params: p()},
+				{Set: "redis", Fn: "HarnessC09Config", Params: p()},
+				{Set: "redis", Fn: "HarnessC09Handshakes", Params: p("clients", "3", "preempt", "0"), Overrides: netOverrides},
+			}
+			if rc.Tier == "thorough" {
+				js = append(js, JobSpec{Set: "redis", Fn: "HarnessC09Handshakes", Params: p("clients", "3", "preempt", "1"), Split: 6, Overrides: netOverrides})
+				js = append(js, JobSpec{Set: "redis", Fn: "HarnessC09Handshakes", Params: p("clients", "4", "preempt", "0"), Split: 4, Overrides: netOverrides})
+			}
+			return js
+		},
+		EngineOnly:     map[string]bool{"HarnessC09Handshakes": true, "HarnessC09Config": true},
+		RequiredCovers: map[string][]string{"HarnessC09CertRule": {"end", "no-certificate", "name-only-on-intermediate"}, "HarnessC09Gate": {"end", "rejected", "accepted"}, "HarnessC09Handshakes": {"end", "failed-handshake", "stalled-handshake"}, "HarnessC09Config": {"end"}},
+		Bounds: func(tier string) map[string]interface{} {
+			return map[string]interface{}{"name_rule": "rule and certificate common names: every byte string of length 1..2 / 0..2, chains of 0..3 certificates", "gate": "identities {none, wrong name (symbolic), right name only on issuer, right leaf name, empty name} x {rule, rule+password}, complete requests already waiting", "handshakes": "3 (thorough 4) clients on the TLS port, each handshake completes / fails / stalls, then a plain client; schedules: all non-preemptive (thorough: 1 preemption)", "tls_config": "ClientAuth, MinVersion, ClientCAs of NewTLSConfigFrom"}
+		},
+		Assumptions: append(append([]string{
+			"crypto/tls and crypto/x509 are trusted: chain building, signature, expiry and cipher negotiation are theirs given ClientAuth=RequireAndVerifyClientCert; tls.Server/Handshake/ConnectionState are stubbed in the engine (outcome chosen by the harness)",
+			"counterexamples of the handshake harness cannot be replayed on real sockets here; they are reported after deterministic re-execution in the engine",
+		}, connLoopAssumptions...), commonAssumptions...),
+		Outside: []string{"X.509 validation, real sockets, real handshakes"},
+	})
+}
+
+func init() {
+	register(&Prop{
+		ID: "C19",
+		Jobs: func(rc *RunCtx) []JobSpec {
+			if rc.Tier == "thorough" {
+				return []JobSpec{
+					{Set: "redis", Fn: "HarnessC19Endings", Params: p("requests", "3", "junk", "4"), Split: 4},
+					{Set: "redis", Fn: "HarnessC19Stop", Params: p("clients", "2", "preempt", "1"), Split: 8, Overrides: netOverrides},
+					{Set: "redis", Fn: "HarnessC19Stop", Params: p("clients", "3", "preempt", "0"), Split: 6, Overrides: netOverrides},
+					{Set: "redis", Fn: "HarnessC09Handshakes", Params: p("clients", "3", "preempt", "0"), Overrides: netOverrides},
+				}
+			}
+			return []JobSpec{
+				{Set: "redis", Fn: "HarnessC19Endings", Params: p("requests", "2", "junk", "2"), Split: 3},
+				{Set: "redis", Fn: "HarnessC19Stop", Params: p("clients", "2", "preempt", "0"), Split: 4, Overrides: netOverrides},
+				{Set: "redis", Fn: "HarnessC09Handshakes", Params: p("clients", "2", "preempt", "0"), Overrides: netOverrides},
+			}
+		},
+		EngineOnly:     map[string]bool{"HarnessC19Stop": true, "HarnessC09Handshakes": true},
+		RequiredCovers: map[string][]string{"HarnessC19Endings": {"end", "eof-at-boundary", "eof-inside-request", "reset", "quit", "malformed", "write-failure", "rejected-certificate"}, "HarnessC19Stop": {"end", "mid-request"}, "HarnessC09Handshakes": {"end", "failed-handshake"}},
+		Bounds: func(tier string) map[string]interface{} {
+			return map[string]interface{}{"endings": "FIN at a request boundary, FIN at every offset inside the pipeline, RST at every offset, QUIT, malformed frame (1..2, thorough 4 arbitrary bytes), write failure from reply k on, rejected certificate, TLS handshake failure/stall, server Stop with idle and mid-request clients", "pipeline": "1..2 (thorough 3) SET requests with symbolic payload", "stop": "1..2 (thorough 3) clients, each with 0..2 complete requests sent and optionally a partial one"}
+		},
+		Assumptions: append(append([]string{
+			"per-connection release is what is decided: socket closed, connection loop returned, registry entry gone; return-to-baseline under churn follows inductively because connections share no per-connection resource (C13/C14); descriptor and goroutine counts over 10^4 real cycles are outside the claim",
+			"an idle client is a scripted connection whose Read blocks until the connection is closed (as the runtime poller unblocks a pending read on Close)",
+		}, connLoopAssumptions...), commonAssumptions...),
+		Outside: []string{"kernel descriptors, real sockets, long churn runs"},
+	})
+}
